@@ -6,6 +6,7 @@ package vtime
 
 import (
 	"container/heap"
+	"runtime"
 	"sync"
 	"time"
 )
@@ -58,6 +59,7 @@ type entry struct {
 	c      chan time.Time
 	f      func()
 	index  int // heap index, -1 when not scheduled
+	origin string
 }
 
 type timerHeap []*entry
@@ -134,7 +136,14 @@ func Since(t Time) Duration { return Now().Sub(t) }
 // Until is t.Sub(Now()).
 func Until(t Time) Duration { return t.Sub(Now()) }
 
+// Debug, when true, records the creator of every timer (see PendingOrigins).
+var Debug bool
+
 func (c *clock) add(e *entry, d time.Duration) {
+	if Debug {
+		buf := make([]byte, 2048)
+		e.origin = string(buf[:runtime.Stack(buf, false)])
+	}
 	c.seq++
 	e.seq = c.seq
 	e.when = c.now.Add(d)
@@ -162,6 +171,21 @@ func Pending() (int, Time) {
 		return 0, Time{}
 	}
 	return len(c.timers), c.timers[0].when
+}
+
+// PendingOrigins returns the creation stacks of the pending timers (Debug must be on).
+func PendingOrigins() []string {
+	c := cur()
+	if c == nil {
+		return nil
+	}
+	c.mu.Lock()
+	defer c.mu.Unlock()
+	var out []string
+	for _, e := range c.timers {
+		out = append(out, e.when.String()+"\n"+e.origin)
+	}
+	return out
 }
 
 // Advance moves virtual time forward by d, firing every timer that falls due, in deadline order.
@@ -207,6 +231,53 @@ func Advance(d Duration) {
 	}
 	c.now = target
 	c.mu.Unlock()
+}
+
+// AdvanceNext moves virtual time to the earliest pending timer if that lies within max (firing every
+// timer due at that instant) and reports how far it moved and whether timers fired; with no timer
+// within max it moves by max. Together with a quiescence barrier after each firing instant this turns
+// the free-running system into a discrete-event simulation: time only moves when nothing is runnable.
+func AdvanceNext(max Duration) (Duration, bool) {
+	c := cur()
+	if c == nil || max <= 0 {
+		return max, false
+	}
+	c.mu.Lock()
+	if len(c.timers) == 0 || c.timers[0].when.After(c.now.Add(max)) {
+		c.now = c.now.Add(max)
+		c.mu.Unlock()
+		return max, false
+	}
+	inst := c.timers[0].when
+	moved := Duration(0)
+	if inst.After(c.now) {
+		moved = inst.Sub(c.now)
+		c.now = inst
+	}
+	var fs []func()
+	for len(c.timers) > 0 && !c.timers[0].when.After(inst) {
+		e := heap.Pop(&c.timers).(*entry)
+		if e.c != nil {
+			select {
+			case e.c <- c.now:
+			default:
+			}
+		}
+		if e.f != nil {
+			fs = append(fs, e.f)
+		}
+		if e.period > 0 {
+			c.seq++
+			e.seq = c.seq
+			e.when = inst.Add(e.period)
+			heap.Push(&c.timers, e)
+		}
+	}
+	c.mu.Unlock()
+	for _, f := range fs {
+		go f()
+	}
+	return moved, true
 }
 
 // Timer mirrors time.Timer.
